@@ -215,3 +215,8 @@ def check(cx):
     cx.include(c13, {"C13.1"}, "C07.7", "shared with C13.1: VACUUM forgets the aborted ids, so it must persist the removal of a "
                "rolled-back deletion mark (index entries never shrink, so they are written back only for that reason); a mark "
                "left on a unique-index entry turns into a committed delete and the key is accepted a second time", floor=3)
+
+    # ---- C07.8 (construct shared with C06.3) ---------------------------------------------------------------------------
+    from . import c06
+    cx.include(c06, {"C06.3"}, "C07.8", "shared with C06.3: the unique index is what UNIQUE is judged by, so its maintenance arms must keep an entry "
+               "per live row under the row's current key, stamped with the right creator and deleter", floor=6)
